@@ -32,6 +32,9 @@ COLS = {
     "log": [7.0, 8.0, 9.0, 11.0, 12.0],
     "center": [1.0, 0.0, 2.0, 0.0, 1.0],
     "unused1": [9.0, 9.5, 8.0, 7.0, 6.0],
+    # column names that are not Python identifiers (must be back-ticked, also inside Python-expression factors)
+    "a-b": [2.0, 4.0, 1.0, 3.0, 2.5],
+    "1x": [1.5, 2.5, 0.5, 3.5, 4.0],
     # column names containing a dot (common for data coming from R) and their common root
     "Sepal.Length": [5.1, 4.9, 4.7, 4.6, 5.0],
     "Sepal.Width": [3.5, 3.0, 3.2, 3.1, 3.6],
@@ -88,6 +91,14 @@ def formulas_a(rng, thorough):
         add(f"I({a}.values * 2) + {b}", "attribute", {a, b})
         add(f"{a}.mean() + {b}", "attribute-call", {a, b})
         add(f"`my col` + {a}", "quoted", {"my col", a})
+        # back-ticked (non-identifier) column names INSIDE Python-expression factors. Before materialization
+        # Formula.required_variables raises SyntaxError for these on HEAD (the sanitized aliases are only known to the
+        # evaluator), (repaired by fix M5: both halves are judged).
+        add(f"np.log(`my col` + 10) + {a}", "quoted-in-python", {"my col", a}, "np")
+        add(f"center(`my col`):{a} + {b}", "quoted-in-python", {"my col", a, b})
+        add(f"C(`1x`) + {a}", "quoted-in-python", {"1x", a})
+        add(f"I(`a-b` * 2) + {{`1x` + {a}}}", "quoted-in-python", {"a-b", "1x", a})
+        add(f"np.maximum(`a-b`, {a}) ~ poly(`my col`, degree=2) + {b}", "quoted-in-python", {"a-b", "my col", a, b}, "np")
         add(f"`my col`:{a} + {b}", "quoted", {"my col", a, b})
         add(f"log + {a}", "column-named-like-transform", {"log", a})
         add(f"{a} + center", "column-named-like-transform", {"center", a})
@@ -291,6 +302,8 @@ def check_resolution(b, counts):
         for style in STYLES:
             if style != "dict" and not items:
                 continue  # nothing to hand over: all styles coincide
+            if style in ("caller-locals", "caller-globals", "capture_context") and not all(k.isidentifier() for k, _ in items):
+                continue  # a name that is not an identifier cannot be a variable of the calling frame
             b.case((kind, formula, tuple(sorted(data)), tuple(k for k, _ in items), style), nontrivial=nontrivial,
                    sample={"formula": formula, "context": [k for k, _ in items], "style": style})
             w = {"formula": formula, "name": var, "context_style": style, "context_names": [k for k, _ in items], "scenario": tag,
@@ -310,10 +323,11 @@ def check_resolution(b, counts):
 
     # value-role names: (name, in_data, in_context); in_transforms is a property of the name
     uses = [("{n} - 1", "lookup"), ("I({n} * 1) - 1", "python-call"), ("{{{n} + 0}} - 1", "python-braces"), ("x:{n} - 1", "interaction")]
-    for name in ("n", "log", "center"):
+    for name in ("n", "log", "center", "my col", "a-b"):
+        token = name if name.isidentifier() else f"`{name}`"  # non-identifier names are written back-ticked
         for in_data, in_ctx in ((1, 0), (0, 1), (1, 1)):
             for tmpl, how in uses:
-                formula = tmpl.format(n=name)
+                formula = tmpl.format(n=token)
                 data = {"x": XVAL}
                 if in_data:
                     data[name] = DATA_VAL
@@ -446,7 +460,7 @@ def run_bounded(ctx):
         with ctx.bounded(
             "required-variables",
             rule="formula templates (plain, two-sided, nested calls, python expressions, attribute access, quoted names, data columns "
-                 "named like transforms, context constants, stateful transforms, keyword/positional/nested call arguments, dotted column names) instantiated over ordered pairs of x,y,z (+ 40/400 seeded "
+                 "named like transforms, context constants, stateful transforms, keyword/positional/nested call arguments, dotted column names, back-ticked non-identifier names inside Python factors) instantiated over ordered pairs of x,y,z (+ 40/400 seeded "
                  "random formulas) x 2 data column sets (exactly the read columns / plus unrelated columns) x "
                  "phase before/after; each case restricts the data to the reported set and then drops every reported column in turn; "
                  "non-trivial = the formula reads >= 2 columns",
@@ -458,7 +472,7 @@ def run_bounded(ctx):
                     check_required(b, counts, formula, kind, set(reads), ctxname, before_ok, extra)
         with ctx.bounded(
             "resolution-order",
-            rule="every name in {n (no transform), log, center (built-in transforms)} x presence in data/context (3 patterns) x 4 ways "
+            rule="every name in {n (no transform), log, center (built-in transforms), `my col`, `a-b` (not identifiers, back-ticked)} x presence in data/context (3 patterns) x 4 ways "
                  "of using a value (bare name, inside I(), inside {}, in an interaction), plus callables (built-in, context override, "
                  "context-only, dotted attribute/callable, constants, several at once) and a data column shadowing a callable; x 7 ways "
                  "of handing the context over (dict, LayeredMapping unnamed/named/nested, caller's locals and caller's globals through "
@@ -466,7 +480,7 @@ def run_bounded(ctx):
                  "distinguishable value so the matrix shows where the value came from; the reported source is judged by its top-level "
                  "layer name; non-trivial = >= 2 layers define the name",
             exhaustive=True,
-            bound="(3 names x 3 presence patterns x 4 usages + 10 callable cases) x 7 context-passing styles",
+            bound="(5 names x 3 presence patterns x 4 usages + 10 callable cases) x 7 context-passing styles",
         ) as b:
             check_resolution(b, counts)
         with ctx.bounded(
